@@ -137,6 +137,10 @@ class RecAntenna(pyrex.Antenna):
             grid_ok = all(len(x.times) == len(SIGNAL_TIMES) and
                           np.allclose(x.times, SIGNAL_TIMES + tof, rtol=0, atol=1e-6 * (SIGNAL_TIMES[1] - SIGNAL_TIMES[0]))
                           for x in sigs)
+            # the antenna is told the direction of travel of the signal as it arrives: the path's received direction
+            if direction is not None:
+                grid_ok = grid_ok and bool(np.allclose(np.asarray(direction, dtype=float),
+                                                       np.asarray(tr.paths[k].received_direction, dtype=float), rtol=0, atol=1e-9))
         kind = 'empty' if all(isinstance(x, EmptySignal) for x in sigs) else 'pulse'
         ctx.log.append({'ev': '_Receive', 'a': self._a, 'p': tr.p if tr else 0, 's': s, 'kind': kind,
                         'grid_ok': bool(grid_ok and tr is not None and tr.a == self._a)})
